@@ -5,12 +5,15 @@ use serde_json::{json, Value};
 pub mod c01;
 pub mod c02;
 pub mod c03;
+pub mod c06;
+pub mod stack;
 pub mod c07;
+pub mod c08;
 pub mod c18;
 pub mod ik;
 
 pub fn registry() -> Vec<Prop> {
-    vec![c01::prop(), c02::prop(), c03::prop(), c07::prop(), c18::prop()]
+    vec![c01::prop(), c02::prop(), c03::prop(), c06::prop(), c07::prop(), c08::prop(), c18::prop()]
 }
 
 pub fn child(_args: &[String]) -> i32 {
